@@ -179,6 +179,8 @@ func slotAlts() []slotAlt {
 		{label: "sub2.Delivery", typ: "sub2.Delivery", local: true},
 		{label: "[]sub2.Delivery", typ: "[]sub2.Delivery", local: true},
 		{label: "sub2.Route", typ: "sub2.Route", local: true},
+		{label: "named-nested-slice-of-unions", typ: "Grid2", declA: "type Grid2 [][]Shape\n", local: true},
+		{label: "named-slice-of-maps-of-unions", typ: "Layers", declA: "type Layers []map[string]Shape\n", local: true},
 		{label: "pointer-to-later-union-holder", typ: "*Payload", declB: "type Payload struct {\n\tContent Shape\n\tNote    string\n}\n", local: true},
 		{label: "proj.Level", typ: "proj.Level", local: true},
 		// other packages
